@@ -7,6 +7,7 @@
 
 #include <future>
 
+#include <dispenso/detail/verif_hooks.h>
 #include <dispenso/completion_event.h>
 #include <dispenso/once_function.h>
 #include <dispenso/task_set.h>
@@ -138,6 +139,7 @@ class FutureImplBase : private FutureImplResultMember<Result> {
   using FutureImplResultMember<Result>::runToResult;
 
   bool ready() {
+    DISPENSO_VERIF_POINT("fut.ready.load", this);
     return status_.intrusiveStatus().load(std::memory_order_acquire) == kReady;
   }
 
@@ -170,11 +172,13 @@ class FutureImplBase : private FutureImplResultMember<Result> {
   }
 
   void incRefCount() {
+    DISPENSO_VERIF_POINT("fut.incRef", this);
     refCount_.fetch_add(1, std::memory_order_acquire);
   }
 
   void decRefCountMaybeDestroy() {
     DISPENSO_TSAN_ANNOTATE_HAPPENS_BEFORE(&refCount_);
+    DISPENSO_VERIF_POINT("fut.decRef", this);
     if (refCount_.fetch_sub(1, std::memory_order_release) == 1) {
       DISPENSO_TSAN_ANNOTATE_HAPPENS_AFTER(&refCount_);
       dealloc();
@@ -182,7 +186,9 @@ class FutureImplBase : private FutureImplResultMember<Result> {
   }
 
   void setReady() {
+    DISPENSO_VERIF_POINT("fut.setReady.store", this);
     status_.intrusiveStatus().store(kReady, std::memory_order_release);
+    DISPENSO_VERIF_POINT("fut.setReady.refstore", this);
     refCount_.store(1, std::memory_order_release);
   }
 
@@ -212,12 +218,14 @@ class FutureImplBase : private FutureImplResultMember<Result> {
  protected:
   bool run(int s) {
     while (s == kNotStarted) {
+      DISPENSO_VERIF_POINT("fut.run.cas", this);
       if (status_.intrusiveStatus().compare_exchange_weak(s, kRunning, std::memory_order_acq_rel)) {
         runFunc();
         status_.notify(kReady);
         if (taskSetCounter_) {
           //  If we want TaskSet::wait to imply Future::is_ready(),
           //  we need to signal that *after* setting the Future status to ready.
+          DISPENSO_VERIF_POINT("fut.run.tsc", this);
           taskSetCounter_->fetch_sub(1, std::memory_order_release);
         }
         tryExecuteThenChain();
@@ -245,9 +253,11 @@ class FutureImplBase : private FutureImplResultMember<Result> {
   };
 
   void tryExecuteThenChain() {
+    DISPENSO_VERIF_POINT("fut.chain.load", this);
     ThenChain* head = thenChain_.load(std::memory_order_acquire);
     // While the chain contains anything, let's try to get it and dispatch the chain.
     while (head) {
+      DISPENSO_VERIF_POINT("fut.chain.cas", this);
       if (thenChain_.compare_exchange_weak(head, nullptr, std::memory_order_acq_rel)) {
         // Managed to exchange with head, value of thenChain_ now points to null chain.
         // Head points to the implicit list of items to be executed.
@@ -278,6 +288,7 @@ class FutureImplBase : private FutureImplResultMember<Result> {
 
   template <typename SomeFutureImpl, typename Schedulable>
   void addToThenChainOrExecute(SomeFutureImpl* impl, Schedulable& sched, std::launch asyncPolicy) {
+    DISPENSO_VERIF_POINT("fut.then.load0", this);
     if (status_.intrusiveStatus().load(std::memory_order_acquire) == kReady) {
       if ((asyncPolicy & std::launch::async) == std::launch::async) {
         sched.schedule(impl->makeOnceFunction(), ForceQueuingTag());
@@ -299,19 +310,24 @@ class FutureImplBase : private FutureImplResultMember<Result> {
     } else {
       link->invoke = thenChainInvoke<SomeFutureImpl, Schedulable>;
     }
+    DISPENSO_VERIF_POINT("fut.then.loadhead", this);
     link->next = thenChain_.load(std::memory_order_acquire);
+    DISPENSO_VERIF_POINT("fut.then.cas", this);
     while (!thenChain_.compare_exchange_weak(link->next, link, std::memory_order_acq_rel)) {
+      DISPENSO_VERIF_POINT("fut.then.cas", this);
     }
 
     // Okay, one last thing.  It is possible that we added to the thenChain just after
     // tryExecuteThenChain was called from run(). We still need to ensure that this work is kicked
     // off, so just double check here, and execute if that may have happened.
+    DISPENSO_VERIF_POINT("fut.then.recheck", this);
     if (status_.intrusiveStatus().load(std::memory_order_acquire) == kReady) {
       tryExecuteThenChain();
     }
   }
 
   inline bool waitCommon(bool allowInline) {
+    DISPENSO_VERIF_POINT("fut.waitCommon.load", this);
     int s = status_.intrusiveStatus().load(std::memory_order_acquire);
     return s == kReady || (allowInline && run(s));
   }
@@ -513,6 +529,7 @@ class FutureBase {
                 std::forward<F>(f),
                 (deferredPolicy & std::launch::deferred) == std::launch::deferred,
                 &taskSet.outstandingTaskCount_)) {
+    DISPENSO_VERIF_POINT("fut.ctor.tsc", &taskSet.outstandingTaskCount_);
     taskSet.outstandingTaskCount_.fetch_add(1, std::memory_order_acquire);
     if ((asyncPolicy & std::launch::async) == std::launch::async) {
       taskSet.pool().schedulePlaced(impl_->makeOnceFunction(), ForceQueuingTag());
@@ -528,6 +545,7 @@ class FutureBase {
                 std::forward<F>(f),
                 (deferredPolicy & std::launch::deferred) == std::launch::deferred,
                 &taskSet.outstandingTaskCount_)) {
+    DISPENSO_VERIF_POINT("fut.ctor.tsc", &taskSet.outstandingTaskCount_);
     taskSet.outstandingTaskCount_.fetch_add(1, std::memory_order_acquire);
     if ((asyncPolicy & std::launch::async) == std::launch::async) {
       taskSet.pool().schedulePlaced(impl_->makeOnceFunction(), ForceQueuingTag());
@@ -547,6 +565,7 @@ class FutureBase {
                 std::forward<F>(f),
                 (deferredPolicy & std::launch::deferred) == std::launch::deferred,
                 &invoker.taskSet.outstandingTaskCount_)) {
+    DISPENSO_VERIF_POINT("fut.ctor.tsc", &invoker.taskSet.outstandingTaskCount_);
     invoker.taskSet.outstandingTaskCount_.fetch_add(1, std::memory_order_acquire);
     if ((asyncPolicy & std::launch::async) == std::launch::async) {
       invoker.schedule(impl_->makeOnceFunction(), ForceQueuingTag());
